@@ -78,6 +78,17 @@ pub async fn reentrant_queries(prov: &Prov, cache: &SolverCache<Prov>, solvables
             }
         }
     }
+    // an impatient provider: polls a dependency query once and abandons it when it is not ready
+    // (what a timeout or select! does); whoever waits on that request has to start over
+    if prov.abandon.get() {
+        for &s in solvables.iter().rev().take(2) {
+            let mut fut = Box::pin(cache.get_or_cache_dependencies(s));
+            if std::future::poll_fn(|cx| std::task::Poll::Ready(std::future::Future::poll(fut.as_mut(), cx))).await.is_pending() {
+                prov.abandoned.set(prov.abandoned.get() + 1);
+            }
+            drop(fut);
+        }
+    }
     for &s in solvables.iter().take(3) {
         let name = u.solvs[s.0 as usize].name;
         // the package being sorted is already cached: must not hit the provider again
@@ -352,8 +363,20 @@ impl Monitor for C20 {
             let opts = SolveOpts { mode: Mode::Async(random_policy(&mut rr)), pause_mask: PAUSE_ALL, ..SolveOpts::default() };
             let mut sess = crate::run::Session::new(u.clone(), &opts);
             sess.prov().reentrant_sort.set(true);
+            sess.prov().abandon.set(h % 2 == 0);
             let out = sess.solve(&c.p);
             ctx.rep.evaluations += 1;
+            ctx.rep.add("re-entrant-queries-abandoned-by-the-provider", sess.prov().abandoned.get());
+            match (&plain, &out) {
+                (Outcome::Ok(_), Outcome::Unsat(_)) | (Outcome::Unsat(_), Outcome::Ok(_)) => ctx.violation("verdict changes when sort_candidates queries the cache (async)", String::new()),
+                (Outcome::Ok(_) | Outcome::Unsat(_), Outcome::Cancelled(_)) => ctx.violation("Cancelled without a signal when sort_candidates queries the cache (async)", String::new()),
+                (_, Outcome::Ok(b)) => {
+                    for v in rf.check(&c.p, b, &c.p.soft) {
+                        ctx.violation("solve with re-entrant cache queries returned an invalid solution (async)", v);
+                    }
+                }
+                _ => {}
+            }
             if let Outcome::Panic(pi) = &out {
                 ctx.violation(format!("panic with re-entrant cache queries (async): {}", pi.signature()), String::new());
             }
